@@ -56,10 +56,11 @@ pub(crate) fn format_docstring(docstring: String) -> String {
         } else if line.trim().is_empty() {
             result.push(String::new());
         } else {
-            let dedented = if line.len() > min_indent {
-                &line[min_indent..]
-            } else {
-                line.trim_start()
+            // `min_indent` is a byte count taken from another line; with multi-byte
+            // whitespace it need not fall on a character boundary of this one.
+            let dedented = match line.get(min_indent..) {
+                Some(rest) if line.len() > min_indent => rest,
+                _ => line.trim_start(),
             };
             result.push(dedented.to_string());
         }
